@@ -178,6 +178,35 @@ def render(mode=None, canary=None):
         w('        if i == %d { assert(kw_n(%d).len() > 0 && kw_n(%d)[0] != 0x23) by(compute_only); }' % (i, i, i))
     w('    }')
     w('}')
+    w('// C09: every keyword is read back by the classic reader as that very symbol: it is not empty, holds no byte that ends or splits an atom')
+    w('// (blank, parenthesis), does not begin like a dot, a string, a comment or a hex constant, and cannot be taken for a decimal number')
+    w('// (it has a byte outside 0-9 + - _ or no digit at all)')
+    w('pub open spec fn plain_sym_byte(c: u8) -> bool { c != 0x20 && c != 0x09 && c != 0x0a && c != 0x0d && c != 0x28 && c != 0x29 }')
+    w('pub open spec fn numberish(c: u8) -> bool { (0x30 <= c && c <= 0x39) || c == 0x2b || c == 0x2d || c == 0x5f }')
+    w('pub open spec fn plain_symbol(s: Seq<u8>) -> bool {')
+    w('    s.len() > 0 && s[0] != 0x2e && s[0] != 0x22 && s[0] != 0x27 && s[0] != 0x3b')
+    w('    && !(s.len() >= 2 && s[0] == 0x30 && (s[1] == 0x78 || s[1] == 0x58))')
+    w('    && (forall|i: int| 0 <= i < s.len() ==> plain_sym_byte(#[trigger] s[i]))')
+    w('    && ((exists|i: int| 0 <= i < s.len() && !numberish(#[trigger] s[i])) || (forall|i: int| 0 <= i < s.len() ==> !(0x30 <= #[trigger] s[i] && s[i] <= 0x39)))')
+    w('}')
+    w('pub proof fn keywords_are_plain_symbols()')
+    w('    ensures forall|i: int| 0 <= i < kw_count() ==> plain_symbol(#[trigger] kw_n(i)),')
+    w('{')
+    w('    assert forall|i: int| 0 <= i < kw_count() implies plain_symbol(#[trigger] kw_n(i)) by {')
+    for i, r in enumerate(rows):
+        nm = bytes(r[1])
+        wit = next((k for k, c in enumerate(nm) if not (0x30 <= c <= 0x39 or c in (0x2b, 0x2d, 0x5f))), None)
+        w('        if i == %d {' % i)
+        w('            let s = kw_n(%d);' % i)
+        w('            assert(kw_n(%d).len() == %d) by(compute_only);' % (i, len(nm)))
+        for k, c in enumerate(nm):
+            w('            assert(kw_n(%d)[%d] == %d) by(compute_only);' % (i, k, c))
+        if wit is not None:
+            w('            assert(!numberish(s[%d]));' % wit)
+        w('            assert(plain_symbol(s));')
+        w('        }')
+    w('    }')
+    w('}')
     w('// C20: keyword_from_atom(v) and keyword_to_atom(v) pick the table of the same version, min(v, 2)')
     w('pub proof fn selectors_agree()')
     w('    ensures forall|v: int| 0 <= v ==> keyword_from_atom_table(v) == keyword_to_atom_table(v) && keyword_from_atom_table(v) == (if v <= 2 { v } else { 2 }),')
